@@ -27,13 +27,13 @@ func genOp2(t *rapid.T, kind string) op2 {
 	switch kind {
 	case "decimate":
 		// percentage of the vertex count (>100: nothing to do), or a small absolute number
-		o.I = []int{rapid.IntRange(0, 1).Draw(t, "mode"), rapid.IntRange(1, 120).Draw(t, "pct"), rapid.IntRange(3, 12).Draw(t, "abs")}
+		o.I = []int{gen.Int(t, 0, 1, "mode"), gen.Int(t, 1, 120, "pct"), gen.Int(t, 3, 12, "abs")}
 	case "colinear":
 		o.F = []float64{gen.LogF(t, 1e-12, 1e-3, "eps")}
 	case "subdivide":
-		o.I = []int{rapid.IntRange(1, 4).Draw(t, "iters")}
+		o.I = []int{gen.Int(t, 1, 4, "iters")}
 	case "blur":
-		switch rapid.IntRange(0, 3).Draw(t, "ratekind") {
+		switch gen.Int(t, 0, 3, "ratekind") {
 		case 0:
 			o.F = []float64{0}
 		case 1:
@@ -42,7 +42,7 @@ func genOp2(t *rapid.T, kind string) op2 {
 			o.F = []float64{gen.F(t, 0, 1, "rate")}
 		}
 	case "smooth", "smoothsq":
-		o.I = []int{rapid.IntRange(0, 8).Draw(t, "iters")}
+		o.I = []int{gen.Int(t, 0, 8, "iters")}
 	default:
 		panic("c10: unknown 2D op " + kind)
 	}
